@@ -784,58 +784,93 @@ impl Recorder {
 // watchdog for calls that must return
 // ---------------------------------------------------------------------------
 
-/// Runs `f` on the current thread while a registry lets a background watchdog notice a call
-/// that has not returned after `HANG_SECS`; the watchdog then reports and terminates the process.
+/// Runs `f` on the current thread while a registry lets a background watchdog notice a call that does
+/// not return: verdict "hang" when the calling thread has burnt `HANG_CPU_SECS` of CPU inside one call
+/// (a normal call takes about a millisecond), or has been inside it for `HANG_WALL_SECS` of wall time
+/// (blocked forever).  CPU time, not wall time, is the primary criterion, so that an overloaded machine
+/// cannot produce a verdict.
 pub mod watchdog {
     use std::sync::Mutex;
     use std::time::Instant;
-    pub const HANG_SECS: u64 = 30;
-    static SLOTS: Mutex<Vec<Option<(Instant, String)>>> = Mutex::new(Vec::new());
+    pub const HANG_CPU_SECS: u64 = 30;
+    pub const HANG_WALL_SECS: u64 = 1800;
+    struct Slot {
+        tid: u32,
+        generation: u64,
+        busy: bool,
+        start: Instant,
+        what: String,
+    }
+    static SLOTS: Mutex<Vec<Slot>> = Mutex::new(Vec::new());
     thread_local! { static MY: std::cell::Cell<usize> = const { std::cell::Cell::new(usize::MAX) }; }
+
+    /// CPU ticks (utime + stime, USER_HZ = 100) of one thread of this process.
+    fn thread_ticks(tid: u32) -> Option<u64> {
+        let s = std::fs::read_to_string(format!("/proc/self/task/{tid}/stat")).ok()?;
+        let rest = &s[s.rfind(')')? + 1..];
+        let f: Vec<&str> = rest.split_whitespace().collect();
+        Some(f.get(11)?.parse::<u64>().ok()? + f.get(12)?.parse::<u64>().ok()?)
+    }
 
     pub fn start(property: &'static str) {
         static ONCE: std::sync::Once = std::sync::Once::new();
         ONCE.call_once(|| {
             std::thread::spawn(move || {
+                // (slot, generation) -> ticks when first seen busy
+                let mut seen: std::collections::HashMap<(usize, u64), u64> = std::collections::HashMap::new();
                 loop {
-                    std::thread::sleep(std::time::Duration::from_secs(1));
-                    let g = SLOTS.lock().unwrap_or_else(|e| e.into_inner());
-                    for s in g.iter().flatten() {
-                        if s.0.elapsed().as_secs() >= HANG_SECS {
-                            let dir = vcore::verif_root().join("replays").join(property);
-                            let _ = std::fs::create_dir_all(&dir);
-                            let path = dir.join(format!("hang-{:016x}.json", vcore::hash_of(&s.1)));
-                            let _ = std::fs::write(&path, format!("{{\"property\":\"{property}\",\"signature\":{{\"kind\":\"hang\"}},\"case\":{}}}", s.1));
-                            println!(
-                                "VIOLATION property={property} replay={} sig=[kind=hang] n=1 :: a call did not return within {HANG_SECS} s: {}",
-                                path.display(),
-                                vcore::truncate(&s.1, 300)
-                            );
-                            std::process::exit(1);
+                    std::thread::sleep(std::time::Duration::from_secs(2));
+                    let mut verdict: Option<(String, String)> = None;
+                    {
+                        let g = SLOTS.lock().unwrap_or_else(|e| e.into_inner());
+                        seen.retain(|(i, generation), _| g.get(*i).map(|s| s.busy && s.generation == *generation).unwrap_or(false));
+                        for (i, s) in g.iter().enumerate().filter(|(_, s)| s.busy) {
+                            let now = thread_ticks(s.tid).unwrap_or(0);
+                            let first = *seen.entry((i, s.generation)).or_insert(now);
+                            let cpu_s = now.saturating_sub(first) / 100;
+                            if cpu_s >= HANG_CPU_SECS {
+                                verdict = Some((s.what.clone(), format!("the call has consumed {cpu_s} s of CPU without returning")));
+                            } else if s.start.elapsed().as_secs() >= HANG_WALL_SECS {
+                                verdict = Some((s.what.clone(), format!("the call has not returned after {HANG_WALL_SECS} s of wall time ({cpu_s} s CPU)")));
+                            }
                         }
+                    }
+                    if let Some((what, why)) = verdict {
+                        let dir = vcore::verif_root().join("replays").join(property);
+                        let _ = std::fs::create_dir_all(&dir);
+                        let path = dir.join(format!("hang-{:016x}.json", vcore::hash_of(&what)));
+                        let _ = std::fs::write(&path, format!("{{\"property\":\"{property}\",\"signature\":{{\"kind\":\"hang\"}},\"detail\":\"{why}\",\"case\":{what}}}"));
+                        println!("VIOLATION property={property} replay={} sig=[kind=hang] n=1 :: {why}: {}", path.display(), vcore::truncate(&what, 300));
+                        std::process::exit(1);
                     }
                 }
             });
         });
     }
-    /// `what` is the JSON text of the case (only rendered when needed: pass a closure).
+    /// `what` renders the JSON text of the case.
     pub fn guard<T>(what: impl FnOnce() -> String, f: impl FnOnce() -> T) -> T {
         let idx = MY.with(|m| {
             if m.get() == usize::MAX {
+                let tid = std::fs::read_link("/proc/thread-self").ok().and_then(|p| p.file_name().and_then(|n| n.to_str().and_then(|s| s.parse().ok()))).unwrap_or(0);
                 let mut g = SLOTS.lock().unwrap_or_else(|e| e.into_inner());
-                g.push(None);
+                g.push(Slot { tid, generation: 0, busy: false, start: Instant::now(), what: String::new() });
                 m.set(g.len() - 1);
             }
             m.get()
         });
         {
+            let w = what();
             let mut g = SLOTS.lock().unwrap_or_else(|e| e.into_inner());
-            g[idx] = Some((Instant::now(), what()));
+            let s = &mut g[idx];
+            s.generation += 1;
+            s.busy = true;
+            s.start = Instant::now();
+            s.what = w;
         }
         let r = f();
         {
             let mut g = SLOTS.lock().unwrap_or_else(|e| e.into_inner());
-            g[idx] = None;
+            g[idx].busy = false;
         }
         r
     }
